@@ -102,6 +102,10 @@ def _views(ds):
     s = ds.interaction_matrix(format="structure")
     rp = [int(x) for x in s.rowptrs]; ci = [int(x) for x in s.colinds]
     out["structure"] = sorted((users[u], items[ci[k]]) for u in range(len(users)) for k in range(rp[u], rp[u + 1]))
+    m_ = ds.interactions().matrix(); coo_s = m_.coo_structure()
+    out["coo_structure"] = sorted((users[int(r)], items[int(c)]) for r, c in zip(coo_s.row_numbers, coo_s.col_numbers))
+    try: out["nnz"] = {"csr": int(s.nnz), "coo": int(coo_s.nnz), "shape_csr": [int(x) for x in s.shape], "shape_coo": [int(x) for x in coo_s.shape]}
+    except Exception as e: out["nnz"] = {"error": type(e).__name__}
     rows = []
     for u in users:
         il = ds.user_row(u)
@@ -128,7 +132,7 @@ def run(case: dict, lean: Lean) -> Outcome:
     model = lean.call("c01.run_history", {"ops": case["ops"]})
     corr = real == model
     # specification clauses evaluated on the implementation alone
-    failed = []
+    failed = []; keys = []
     if users != sorted(set(users)) and len(case["ops"]) <= 2: failed.append("one-shot vocabulary not ascending")
     if len(set(users)) != len(users) or len(set(items)) != len(items): failed.append("identifier numbered twice")
     try:
@@ -137,6 +141,9 @@ def run(case: dict, lean: Lean) -> Outcome:
         for name in ("scipy_csr", "scipy_coo", "torch_csr", "user_rows"):
             if name in v and v[name] != ref: failed.append(f"view {name} differs from the record table")
         if v["structure"] != sorted((u, i) for u, i, _ in ref): failed.append("CSR structure differs from the record table")
+        if v["coo_structure"] != sorted((u, i) for u, i, _ in ref): failed.append("COO structure differs from the record table")
+        if v["nnz"] != {"csr": len(ref), "coo": len(ref), "shape_csr": [len(users), len(items)], "shape_coo": [len(users), len(items)]}:
+            failed.append(f"structure sizes wrong: {v['nnz']}"); keys.append("COOStructure.nnz indexes the row numbers like row pointers")
         for u in users:
             if v["user_counts"].get(u, 0) != sum(1 for x in ref if x[0] == u): failed.append(f"user_stats count wrong for {u}")
         for i in items:
@@ -158,7 +165,9 @@ def run(case: dict, lean: Lean) -> Outcome:
     act_u = {r[0] for r in recs}
     if len(act_u) < len(users): classes.append("entity without interactions")
     if not recs: classes.append("no records left")
-    return Outcome(corr, spec, tuple(classes), {"impl": real, "model": model, "failed": failed}, None)
+    fk = None
+    if failed: fk = tuple(sorted(set(keys))) if (keys and all("structure sizes wrong" in f for f in failed)) else None
+    return Outcome(corr, spec, tuple(classes), {"impl": real, "model": model, "failed": failed}, fk)
 
 def shrink(case: dict):
     for i in range(2, len(case["ops"])):
